@@ -32,6 +32,23 @@ func (env *SpecEnv) call(x ECall, hint types.Type) Value {
 				return Term{S: sx("g_strlen", v.S), T: types.Typ[types.Int]}
 			}
 			sfail("len of %s", v.T)
+		case "sprintf":
+			// fmt.Sprintf as an (uninterpreted) function of the format and the boxed arguments; see specialCall
+			if len(x.Args) < 1 {
+				sfail("sprintf needs a format")
+			}
+			f := env.evalTerm(x.Args[0], types.Typ[types.String])
+			anyT := types.NewInterfaceType(nil, nil)
+			tc.usesDyn = true
+			arr := sx(sx("as const", sx("Array", "Int", "Dyn")), "Dyn_nil")
+			for i, a := range x.Args[1:] {
+				t := env.evalTerm(a, nil)
+				if !isInterface(t.T) {
+					t = Term{S: sx(tc.dynCtor(t.T), t.S), T: anyT}
+				}
+				arr = sx("store", arr, tc.idxLit(int64(i)), t.S)
+			}
+			return Term{S: ex.sprintfTerm(f.S, arr, len(x.Args)-1), T: types.Typ[types.String]}
 		case "ret0", "ret1", "ret2":
 			v := env.eval(x.Args[0], nil)
 			t, ok := v.(Tuple)
@@ -237,6 +254,9 @@ func (ex *Exec) specFuncApply(inner *SpecEnv, sf *SpecFunc, argv []Term) Value {
 			sfail("spec function expansion too deep at %s", sf.Name)
 		}
 		t := n.evalTerm(sf.Body, ret)
+		if ex.probing == 0 {
+			ex.autoAxioms(inner, sf, "")
+		}
 		return Term{S: t.S, T: ret}
 	}
 	// uninterpreted: function of (read heap components..., args)
@@ -258,10 +278,8 @@ func (ex *Exec) specFuncApply(inner *SpecEnv, sf *SpecFunc, argv []Term) Value {
 		ex.defineRecSpec(inner, sf, name, reads, sorts, ret)
 	} else {
 		ex.vc.declareFun(name, "("+strings.Join(sorts, " ")+")", ex.vc.tc.sortOf(ret))
-		if sf.Body == nil {
-			ex.autoAxioms(inner, sf, name)
-		}
 	}
+	ex.autoAxioms(inner, sf, name)
 	if len(actuals) == 0 {
 		return Term{S: name, T: ret}
 	}
@@ -585,7 +603,12 @@ func (ex *Exec) autoAxioms(inner *SpecEnv, sf *SpecFunc, fname string) {
 	}
 	for _, k := range sortedKeys(ex.prog.cs.Lemmas) {
 		lm := ex.prog.cs.Lemmas[k]
-		if !lm.Axiom || !lm.Auto || lm.PkgPath != sf.PkgPath || !mentionsCall(lm.Body, sf.Name) || ex.autoDone[k] {
+		if !lm.Auto || lm.PkgPath != sf.PkgPath || !mentionsCall(lm.Body, sf.Name) || ex.autoDone[k] {
+			continue
+		}
+		if !lm.Axiom && ex.provingLemma != nil && (lm.File != ex.provingLemma.File || lm.Line >= ex.provingLemma.Line) {
+			// a proved lemma may serve as a background fact only where that is not circular: in function
+			// obligations, and in the proofs of lemmas stated after it in the same file
 			continue
 		}
 		ex.autoDone[k] = true
@@ -606,7 +629,11 @@ func (ex *Exec) autoAxioms(inner *SpecEnv, sf *SpecFunc, fname string) {
 		ex.vc.noDefine++
 		body := n.evalTerm(lm.Body, types.Typ[types.Bool])
 		ex.vc.noDefine--
-		ex.vc.addAxiom("auto_"+mangle(k), fmt.Sprintf("(forall (%s) %s)", strings.Join(decls, " "), body.S), fname)
+		if fname == "" {
+			ex.vc.addAxiom("auto_"+mangle(k), fmt.Sprintf("(forall (%s) %s)", strings.Join(decls, " "), body.S))
+		} else {
+			ex.vc.addAxiom("auto_"+mangle(k), fmt.Sprintf("(forall (%s) %s)", strings.Join(decls, " "), body.S), fname)
+		}
 	}
 }
 
